@@ -1,12 +1,13 @@
 (* C12 correspondence. One case = one (construction, depth, master seed, period) state of a
    real Sum{d}Kes / Sum{d}CompactKes key: the harness's classification of everything the
    real code produced; the model must produce exactly the same.
-   case := Case variant d k t m seed_after pk buf period topk sig rt upd_ok sigs vexps
+   case := Case variant d k t m seed_after pk buf period topk sig rt upd_ok gv sigs vexps
      variant 0 = SumKes, 1 = SumCompactKes; k = master seed number; t = updates done;
      m = message number signed; seed_after = caller's seed bytes after keygen;
      pk = key returned by keygen; buf = key buffer slots after t updates; period =
      get_period(); topk = to_pk(); sig = sign(m).to_bytes() as slots; rt = from_bytes
      of those bytes gives back an equal signature; upd_ok = the next update() is Ok;
+     gv = verdicts of verifying sig under pk and m at periods 0, 1, 2, ... (length gv of them);
      sigs = signature byte strings (slots) used by the verification experiments;
      vexps = V period pk message-number index-into-sigs (from_bytes+verify is Ok). *)
 From PV Require Export Lib.Base Kes.Model Kes.Interp C12.Model.
@@ -16,7 +17,7 @@ Open Scope Z_scope.
 Inductive vexp : Type := V (period : Z) (pk : cls) (m : Z) (sig_index : Z) (verdict : bool).
 Inductive case : Type :=
   Case (variant d k t m : Z) (seed_after pk : cls) (buf : list cls) (period : Z) (topk : cls)
-       (sig : list cls) (rt upd_ok : bool) (sigs : list (list cls)) (vexps : list vexp).
+       (sig : list cls) (rt upd_ok : bool) (gv : list bool) (sigs : list (list cls)) (vexps : list vexp).
 
 Definition is_some {A} (o : option A) : bool := match o with Some _ => true | None => false end.
 
@@ -46,7 +47,7 @@ Definition model_state (variant : Z) (d : nat) (k : Z) (t : nat) (m : Z)
   end.
 
 Definition case_ok (c : case) : bool :=
-  let '(Case variant d k t m seed_after pk buf period topk sig rt upd_ok sigs vexps) := c in
+  let '(Case variant d k t m seed_after pk buf period topk sig rt upd_ok gv sigs vexps) := c in
   let dn := Z.to_nat d in
   let I := interp dn in
   match model_state variant dn k (Z.to_nat t) m with
@@ -55,19 +56,21 @@ Definition case_ok (c : case) : bool :=
       term_eqb sa' (I seed_after) && term_eqb pk' (I pk) && list_eqb term_eqb buf' (map I buf)
       && (period' =? period) && term_eqb topk' (I topk) && list_eqb term_eqb sig' (map I sig)
       && Bool.eqb rt' rt && Bool.eqb upd' upd_ok
+      && list_eqb Bool.eqb (map (fun p => verify_bytes variant dn (map I sig) p (I pk) m) (zrange 0 (length gv))) gv
       && forallb (fun e : vexp =>
            let '(V p pkc m' si verdict) := e in
            Bool.eqb (verify_bytes variant dn (map I (nth (Z.to_nat si) sigs [])) p (I pkc) m') verdict) vexps
   end.
 
 Definition case_out (c : case) :=
-  let '(Case variant d k t m seed_after pk buf period topk sig rt upd_ok sigs vexps) := c in
+  let '(Case variant d k t m seed_after pk buf period topk sig rt upd_ok gv sigs vexps) := c in
   let dn := Z.to_nat d in
   let I := interp dn in
   match model_state variant dn k (Z.to_nat t) m with
   | None => None
   | Some (sa', pk', buf', period', topk', sig', rt', upd') =>
       Some (abstr sa', abstr pk', map abstr buf', period', abstr topk', map abstr sig', rt', upd',
+            map (fun p => verify_bytes variant dn (map I sig) p (I pk) m) (zrange 0 (length gv)),
             map (fun e : vexp =>
               let '(V p pkc m' si verdict) := e in
               verify_bytes variant dn (map I (nth (Z.to_nat si) sigs [])) p (I pkc) m') vexps)
